@@ -35,6 +35,8 @@ var swaps = map[string]struct{ path, name string }{
 	"time": {"verif/h/rt/vtime", "time"},
 	"os":   {"verif/h/rt/vos", "os"},
 	"context": {"verif/h/rt/vcontext", "context"},
+	"golang.org/x/sync/errgroup":     {"verif/h/rt/verrgroup", "errgroup"},
+	"golang.org/x/sync/singleflight": {"verif/h/rt/vsingleflight", "singleflight"},
 	"github.com/syndtr/goleveldb/leveldb": {"verif/h/rt/vleveldb", "leveldb"},
 }
 
